@@ -407,6 +407,21 @@ package saml
 //@ ensures[C05] default_binding: err == nil && req.Request.AssertionConsumerServiceIndex == "" && req.Request.AssertionConsumerServiceURL == "" ==>
 //@    req.ACSEndpoint.Binding == HTTPPostBinding || req.ACSEndpoint.Binding == HTTPRedirectBinding
 //@ ensures[C05] errkind: err != nil ==> err == os.ErrNotExist
+//@ -- precedence: a requested index wins whenever some registered endpoint carries it; only otherwise the requested URL decides
+//@ go func noIndexIn(d SPSSODescriptor, idx string) bool {
+//@    return forall(0, len(d.AssertionConsumerServices), func(e int) bool { return strconv.Itoa(d.AssertionConsumerServices[e].Index) != idx }) }
+//@ go func noIndexAnywhere(md *EntityDescriptor, idx string) bool {
+//@    return forall(0, len(md.SPSSODescriptors), func(d int) bool { return noIndexIn(md.SPSSODescriptors[d], idx) }) }
+//@ loop 1
+//@ invariant[C05] no_index_match_so_far: forall(0, iter, func(d int) bool { return noIndexIn(req.ServiceProviderMetadata.SPSSODescriptors[d], req.Request.AssertionConsumerServiceIndex) })
+//@ loop 2 vars spssoDescriptor SPSSODescriptor
+//@ invariant[C05] no_index_match_in_descriptor: forall(0, iter, func(e int) bool {
+//@    return strconv.Itoa(spssoDescriptor.AssertionConsumerServices[e].Index) != req.Request.AssertionConsumerServiceIndex })
+//@ assert@return[C05] #2 index_was_tried_first:
+//@    req.Request.AssertionConsumerServiceIndex == "" || noIndexAnywhere(req.ServiceProviderMetadata, req.Request.AssertionConsumerServiceIndex)
+//@ ensures[C05] index_first: err == nil && req.Request.AssertionConsumerServiceIndex != "" &&
+//@    !noIndexAnywhere(req.ServiceProviderMetadata, req.Request.AssertionConsumerServiceIndex) ==>
+//@    strconv.Itoa(req.ACSEndpoint.Index) == req.Request.AssertionConsumerServiceIndex
 
 //@ contract (*IdpAuthnRequest).Validate
 //@ requires[cfg] idp: req.IDP != nil && req.IDP.Certificate != nil && req.IDP.ServiceProviderProvider != nil
